@@ -2,7 +2,12 @@
 from vlib.framework import PUnit, LUnit, BUnit
 from bounded import b_build as B
 
-P_UNITS = []
+from contracts import effects as E
+from contracts import graph_utils as G
+
+P_UNITS = [LUnit("write-is-unconditional", E.lemma_write_is_unconditional),
+           # the loop that warns about missing links iterates find_missing_edges, which is proved not to raise on a well-formed residue graph
+           PUnit("missing-link-scan-cannot-fail", G.CONTRACTS, G.REG)]
 
 
 def build(tier, seed):
